@@ -18,6 +18,7 @@ import (
 
 type VerifyOpts struct {
 	Thorough   bool
+	ThoroughProp string
 	Safety     bool
 	SafetyTags []string
 	OnlyKinds  map[string]bool // when set, only obligations of these kinds are solved and reported (zero-annotation sweeps)
@@ -194,7 +195,7 @@ func (vc *VC) atReturn(fr *Frame, n *Node, results []string, pos token.Pos) {
 				continue
 			}
 			j++
-			if hasTag(c.Tags, "T") && !vc.thorough {
+			if vc.skipT(c.Tags) {
 				continue // thorough tier only
 			}
 			if hasTag(c.Tags, "A") {
@@ -451,6 +452,7 @@ func (p *Prog) buildVC(fn *ssa.Function, opts VerifyOpts) (*VC, *Node, int) {
 		vc.lockOn, vc.lockTags = opts.Locks, opts.LockTags
 		vc.noAutoInline = opts.NoAutoInline
 		vc.thorough = opts.Thorough
+		vc.thoroughProp = opts.ThoroughProp
 		vc.smokeOn = opts.Smoke
 		// pre-create the state variables discovered by earlier passes (so havocs cover them)
 		var names []string
